@@ -6,7 +6,7 @@ import vlib
 import check
 import corr_g2o
 
-THEOREMS = ['C13_roundtrip', 'C13_cycles', 'C13_refuses', 'C13_unpack_pack']
+THEOREMS = ['C13_roundtrip', 'C13_cycles', 'C13_refuses', 'C13_unpack_pack', 'C13_refusal_leaves_no_file_refuted']
 SIGN_FLIP_KEY = 'se3-odometry-w-negative-normalize-changes-chi2'
 
 TRUSTED = [
@@ -27,6 +27,9 @@ ASSUME = [
     'Graph._g2o_params is None or a dict whose keys equal the parameters\' own keys (as from_g2o builds it)',
     'no custom edge type whose to_g2o writes a line (outside C13\'s quantifier); custom edges whose to_g2o returns None are '
     'silently skipped by the writer (canon drops them) -- outside the quantifier, noted',
+    'a refused export may leave a truncated file behind (NotImplementedError is raised while writing): proved as '
+    'C13_refusal_leaves_no_file_refuted, matched against the implementation in coverage.correspondence.export.stats.refused_partial_file; '
+    'the property is read as "the call raises", not "the disk is untouched"',
     'Vertex.fixed is not part of the format (never written, reader sets False): not part of canon',
     'chi2 is compared by the direct oracle only (bitwise when no number changed; 1e-9 relative when only wrap/normalize '
     'changed last bits); a measurement quaternion with w<0 or not of unit length is changed by normalize() itself -- chi2 '
@@ -83,8 +86,7 @@ def run(rep, tier, seed):
     if flip is not None:
         rep.cov['observed_outside_claim'] = {'what': 'SE(3) odometry measurement with w<0: normalize() on import negates the quaternion and chi2 changes '
                                                      '(C08 sign finding, shared)', 'example': flip}
-        if any(k.get('property') == 'C13' and k.get('status') == 'known' and k.get('key') == SIGN_FLIP_KEY for k in vlib.load_known()):
-            rep.violation('oracle', dict(flip, what='chi2 changes through normalize() on import'), finding_key=SIGN_FLIP_KEY)
+        rep.violation('oracle', dict(flip, what='chi2 changes through normalize() on import'), finding_key=SIGN_FLIP_KEY)
     broken = not (ok and corr_ok and hyp_ok)
     if broken and not fails:
         # search for a concrete failing input with a larger budget
